@@ -212,4 +212,18 @@ class HoldSub(HoldOne):
         _rec("HoldSub", self, inner=inner, second=second, n=n)
 
 
+class HoldPair:
+    """two sibling class-typed parameters; the name of the first is a prefix of the name of the second"""
+
+    def __init__(self, inner: Base, inner2: Base, n: int = 0):
+        _rec("HoldPair", self, inner=inner, inner2=inner2, n=n)
+
+
+class HoldPairR:
+    """the same siblings declared in the opposite order (the longer name first)"""
+
+    def __init__(self, inner2: Base, inner: Base, n: int = 0):
+        _rec("HoldPairR", self, inner2=inner2, inner=inner, n=n)
+
+
 reset()
